@@ -688,3 +688,51 @@ def mutate_glyph_tables(r, gloc, glat):
     if len(glat) >= 8 and int.from_bytes(glat[0:4], "big") >= 0x00030000:
         glat[4] &= 7
     return bytes(gloc), bytes(glat)
+
+
+# ---------------------------------------------------------------------------------------------------------------------------
+# loca / glyf / hmtx (the graphics half of Loader::read_glyph)
+
+def gen_gfx(r):
+    """-> (indexToLocFormat, numLongHorMetrics, loca, glyf, hmtx, gids): a small consistent set of tables, usually with an offset, a
+    size or a count changed; glyf is absent or at least 10 bytes, hmtx at least 4 (Face::Table hands out nothing else)"""
+    n = r.randrange(1, 9)
+    long_fmt = r.random() < 0.5
+    glyphs = []
+    for _ in range(n):
+        if r.random() < 0.25:
+            glyphs.append(b"")
+        else:
+            x0, y0 = r.randrange(-300, 300), r.randrange(-300, 300)
+            x1, y1 = (x0 + r.randrange(0, 500), y0 + r.randrange(0, 500)) if r.random() < 0.9 else (x0 - 1, y0)
+            g = struct.pack(">hhhhh", 1, x0, y0, x1, y1) + bytes(r.randrange(256) for _ in range(r.choice([0, 2, 6])))
+            glyphs.append(g + b"\0" * (len(g) % 2))
+    offs, glyf = [], b""
+    for g in glyphs:
+        offs.append(len(glyf))
+        glyf += g
+    offs.append(len(glyf))
+    if len(glyf) < 10:
+        glyf += b"\0" * (10 - len(glyf))
+    k = r.random()
+    if k < 0.35:
+        i = r.randrange(len(offs))
+        offs[i] = max(0, offs[i] + r.choice([-2, 2, 4, 10, len(glyf), len(glyf) - 10, len(glyf) - 8, -offs[i]]))
+    loca = b"".join(struct.pack(">I", o & 0xFFFFFFFF) if long_fmt else struct.pack(">H", (o // 2) & 0xFFFF) for o in offs)
+    if k > 0.85:
+        loca = loca[: r.randrange(0, len(loca) + 1)]
+    if 0.35 <= k < 0.45:
+        glyf = glyf[: max(10, r.randrange(10, len(glyf) + 1))]
+    nl = r.randrange(0, n + 2)
+    hmtx = b"".join(struct.pack(">Hh", r.randrange(0, 2000), r.randrange(-50, 50)) for _ in range(min(nl, n))) + \
+        b"".join(struct.pack(">h", r.randrange(-50, 50)) for _ in range(max(0, n - nl)))
+    if r.random() < 0.3:
+        hmtx = hmtx[: r.randrange(0, len(hmtx) + 1)]
+    if len(hmtx) < 4:
+        hmtx += b"\0" * (4 - len(hmtx))
+    if r.random() < 0.1:
+        glyf = b""
+    if len(loca) < 4:
+        loca += b"\0" * (4 - len(loca))
+    gids = list(range(0, n + 2)) + [65535]
+    return (1 if long_fmt else 0), nl, loca, glyf, hmtx, gids
